@@ -83,3 +83,8 @@ add("C15","fault_enumeration",
  "All listed hook kill points of the quick scenarios are hit (counts in the evidence); syscall-level positions are enumerated for the small scenarios and listed as hit / not hit.",
  "Trusted: strace's path filter and injection; hook call sites out.* (strace tier is hook-free); a kill inside one write(2) is not separately reachable.",
  "DESIGN.md §2 C15")
+add("C17","exploration",
+ "runtime monitoring: seeded known_hosts layouts and prompt scripts; the real dcat/dtail run against harness-controlled SSH servers with chosen (and changing) host keys; oracle = per server, shell opened and command bytes received (server-side event log) iff trusted, plus a structural comparison of known_hosts before and after and a prompt-free second run",
+ "Held on the cases counted in the evidence (entry kinds x answers; reconnect cases with a changed host key).",
+ "Trusted: x/crypto/ssh/knownhosts for generating test entries (also used by the subject); clients run with --logger none.",
+ "DESIGN.md §2 C17")
